@@ -154,6 +154,10 @@ WORKFLOW_STATE_MACHINE_DATA = {
         events.WORKFLOW_FAILED: statuses.FAILED,
         events.TASK_RUNNING: statuses.RUNNING,
         events.TASK_RESUMING: statuses.RUNNING,
+        # A fail command is processed right after its parent task event, which may
+        # have just moved the workflow from pausing to paused.
+        events.TASK_FAILED_WORKFLOW_ACTIVE: statuses.FAILED,
+        events.TASK_FAILED_WORKFLOW_DORMANT: statuses.FAILED,
     },
     statuses.RESUMING: {
         events.WORKFLOW_PAUSING_WORKFLOW_ACTIVE: statuses.PAUSING,
